@@ -214,9 +214,12 @@ def _install_hooks():
   orig_tr = ms.MuxSocketTransportSink._ProcessTaggedReply
 
   def tagged_reply(self, tag, stream):
-    known = tag in getattr(self, '_tag_map', {})
-    if known:
-      rec('answered', tag_owner.get((id(self), tag)), tag)
+    tup = getattr(self, '_tag_map', {}).get(tag)
+    if tup is not None:
+      w = V._CUR[0]
+      # the recipient is the call whose sink stack the transport itself has bound to this tag
+      owner = w.stack_of.get(id(tup[0])) if (w is not None and hasattr(w, 'stack_of')) else None
+      rec('answered', owner, tag)
     return orig_tr(self, tag, stream)
   ms.MuxSocketTransportSink._ProcessTaggedReply = tagged_reply
   import scales.thriftmux.sink as tms
@@ -385,6 +388,7 @@ def _run(spec, w):
                       'tag': r.get('tag'), 'seq': r.get('seq'), 'arg': r['arg']} for r in srv.requests],
         'discards': [{'at': ticks(d['time']), 'conn': d['conn'], 'named': d['named'], 'frame_tag': d['frame_tag'],
                       'seq': d.get('seq')} for d in srv.discards],
+        'replies': [{'at': ticks(r['time']), 'conn': r['conn'], 'id': r['id'], 'tag': r['tag'], 'seq': r['seq']} for r in srv.replies],
         'connects': [[ticks(t), str(o)] for t, o in srv.connect_log],
         'malformed': [str(m) for m in srv.malformed],
         'frames': [[ticks(t), c, ty, tg, ln] for t, c, ty, tg, ln in srv.frames],
